@@ -131,7 +131,22 @@ def check_completed(n, supplied, rec, viols, info):
                 continue
             partner = S.PARTNER.get(k)
             if partner in supplied:
-                continue          # derived: judged by the relations below
+                # derived from its partner: for the '<=' pairs the documented
+                # rule is "the default unless the relation forces the
+                # partner's value"
+                for a, b, rel in S.COUPLED:
+                    if rel != "<=" or k not in (a, b):
+                        continue
+                    pv = merged.get(partner)
+                    want = max(dflt[k], pv) if k == b else min(dflt[k], pv)
+                    if merged[k] != want:
+                        viols.append(V(
+                            "derived_value",
+                            f"{k} derived from {partner}={pv!r} as "
+                            f"{merged[k]!r}; documented default {dflt[k]!r} "
+                            f"adjusted to the relation gives {want!r}",
+                            mechanism="derived_value:" + k))
+                continue
             if k == "maxfev" and "nb_points" in supplied:
                 want = max(500 * n, int(supplied["nb_points"]) + 1)
             else:
